@@ -60,6 +60,11 @@ ASSUMPTIONS = [
     'most pending + dispatched + 1',
 ]
 
+FAULT_TYPES = [HarnessError] + [
+    type(f'Harness{base.__name__}', (HarnessError, base), {})
+    for base in (IndexError, KeyError, StopIteration, AttributeError,
+                 RuntimeError, LookupError, ValueError, TypeError)]
+
 FAULTS = ['raise', 'quit', 'switch', 'disable', 'dispatch', 'addh', 'rmh',
           'disable_dispatch', 'reenable_nested']
 FIXED_HANDLERS = [['a'], ['a', 'b'], ['b']]
@@ -332,7 +337,10 @@ def run_case(case):
         res.stats['faults_injected'] += 1
         res.tags['fault_kind'].add(kind)
         if kind == 'raise':
-            raised_obj[0] = HarnessError('injected')
+            # (of several types: a library that catches a builtin exception
+            # for its own purposes must not swallow the callback's)
+            raised_obj[0] = FAULT_TYPES[token % len(FAULT_TYPES)]('injected')
+            res.tags['raised_type'].add(type(raised_obj[0]).__name__)
             raise raised_obj[0]
         if kind == 'quit':
             raised_obj[0] = desper.Quit()
